@@ -890,10 +890,15 @@ func trimStack(b []byte) string {
 }
 
 func (w *Worker) curFn() string {
-	if n := len(w.callStack); n > 0 {
-		return w.callStack[n-1].String()
+	n := len(w.callStack)
+	if n == 0 {
+		return "?"
 	}
-	return "?"
+	s := w.callStack[n-1].String()
+	for i := n - 2; i >= 0 && i >= n-5; i-- {
+		s += " <- " + w.callStack[i].Name()
+	}
+	return s
 }
 
 func sortedKeys(m map[string]int) []string {
